@@ -144,7 +144,17 @@ func (b *bungeeMessageResponderAdapter) Servers() []bungeecord.Server {
 	return bungeeServers
 }
 func (b *bungeeMessageResponderAdapter) ConnectedServer() bungeecord.ServerConnection {
-	server := b.player.connectedServer()
+	return b.connectedServerOf(b.player)
+}
+func (b *bungeeMessageResponderAdapter) ConnectedServerOf(player bungeecord.Player) bungeecord.ServerConnection {
+	p, ok := b.Proxy.Player(player.ID()).(*connectedPlayer)
+	if !ok {
+		return nil
+	}
+	return b.connectedServerOf(p)
+}
+func (b *bungeeMessageResponderAdapter) connectedServerOf(player *connectedPlayer) bungeecord.ServerConnection {
+	server := player.connectedServer()
 	if server == nil {
 		return nil
 	}
